@@ -12,7 +12,7 @@ CHECKS = {
         "assumptions": EXPLORATION_ASSUMPTIONS + ["expected components are computed from the generator's structured value by a reference printer, never by re-parsing"],
         "legs": [
             {"test": "TestC01_Regress", "quick": {"timeout": "5m"}, "thorough": {"timeout": "5m"}},
-            {"test": "TestC01", "quick": {"checks": 20000, "timeout": "10m"},
+            {"test": "TestC01", "quick": {"checks": 60000, "timeout": "10m"},
              "thorough": {"checks": 250000, "shards": 8, "timeout": "60m"}},
         ],
     },
@@ -23,9 +23,9 @@ CHECKS = {
             {"test": "TestC02_Regress", "quick": {"timeout": "5m"}, "thorough": {"timeout": "5m"}},
             {"test": "TestC02_Enum", "quick": {"env": {"VERIF_C02_N": 4}, "timeout": "10m"},
              "thorough": {"env": {"VERIF_C02_N": 5}, "shards": 13, "timeout": "30m"}},
-            {"test": "TestC02_String", "quick": {"checks": 50000, "timeout": "10m"},
+            {"test": "TestC02_String", "quick": {"checks": 200000, "timeout": "10m"},
              "thorough": {"checks": 500000, "shards": 4, "timeout": "30m"}},
-            {"test": "TestC02_Session", "quick": {"checks": 300, "timeout": "10m"},
+            {"test": "TestC02_Session", "quick": {"checks": 1000, "timeout": "10m"},
              "thorough": {"checks": 5000, "shards": 4, "timeout": "60m"}},
             {"test": "FuzzC02", "thorough": {"fuzz": "120s", "timeout": "10m"}},
         ],
@@ -34,7 +34,7 @@ CHECKS = {
         "level": "exploration",
         "assumptions": EXPLORATION_ASSUMPTIONS + ["the bytes of one API call are delimited on the wire by two marker lines whose alphabet is disjoint from the argument alphabet; only the calling goroutine sends"],
         "legs": [
-            {"test": "TestC08", "quick": {"checks": 30000, "timeout": "10m"},
+            {"test": "TestC08", "quick": {"checks": 100000, "timeout": "10m"},
              "thorough": {"checks": 300000, "shards": 8, "timeout": "60m"}},
             {"test": "FuzzC08", "thorough": {"fuzz": "120s", "timeout": "10m"}},
         ],
@@ -43,7 +43,7 @@ CHECKS = {
         "level": "exploration",
         "assumptions": EXPLORATION_ASSUMPTIONS + ["pieces are read back from the wire transcript of the scripted server"],
         "legs": [
-            {"test": "TestC11", "quick": {"checks": 20000, "timeout": "10m"},
+            {"test": "TestC11", "quick": {"checks": 60000, "timeout": "10m"},
              "thorough": {"checks": 200000, "shards": 8, "timeout": "60m"}},
             {"test": "TestC11_Concurrent", "quick": {"checks": 300, "timeout": "10m"},
              "thorough": {"checks": 5000, "shards": 4, "timeout": "60m"}},
@@ -66,7 +66,7 @@ CHECKS = {
         "level": "exploration",
         "assumptions": EXPLORATION_ASSUMPTIONS + ["handler enter/exit are stamped with a global tick taken under one mutex; a correct implementation orders the stamps through its own synchronisation, so the oracle cannot raise a false alarm"],
         "legs": [
-            {"test": "TestC03", "quick": {"checks": 400, "timeout": "15m"},
+            {"test": "TestC03", "quick": {"checks": 1000, "timeout": "15m"},
              "thorough": {"checks": 5000, "shards": 4, "timeout": "60m"}},
         ],
     },
@@ -75,7 +75,7 @@ CHECKS = {
         "assumptions": EXPLORATION_ASSUMPTIONS + ["background dispatch is pinned with permanently registered sentinel handlers as the property's quantifier describes; an in-handler script that touches the other handler set first waits for that set's sentinel",
                                                   "quiescence of an event = no goroutine with a frame in hSet.dispatch / hNode.Handle"],
         "legs": [
-            {"test": "TestC04", "quick": {"checks": 300, "timeout": "15m"},
+            {"test": "TestC04", "quick": {"checks": 1000, "timeout": "15m"},
              "thorough": {"checks": 4000, "shards": 4, "timeout": "60m"}},
         ],
     },
@@ -91,7 +91,7 @@ CHECKS = {
         "level": "exploration",
         "assumptions": EXPLORATION_ASSUMPTIONS + ["panic(nil) reaches recover() as *runtime.PanicNilError because the test binary's main module is go 1.23"],
         "legs": [
-            {"test": "TestC16", "quick": {"checks": 400, "timeout": "15m"},
+            {"test": "TestC16", "quick": {"checks": 1500, "timeout": "15m"},
              "thorough": {"checks": 5000, "shards": 4, "timeout": "60m"}},
         ],
     },
@@ -99,7 +99,7 @@ CHECKS = {
         "level": "exploration",
         "assumptions": EXPLORATION_ASSUMPTIONS + ["every issued line is unique (sender id and index are part of it), so loss, duplication, alteration and reordering are all visible in the transcript"],
         "legs": [
-            {"test": "TestC09", "quick": {"checks": 300, "timeout": "15m"},
+            {"test": "TestC09", "quick": {"checks": 500, "timeout": "15m"},
              "thorough": {"checks": 5000, "shards": 4, "timeout": "60m"}},
         ],
     },
@@ -129,7 +129,7 @@ CHECKS = {
         "assumptions": EXPLORATION_ASSUMPTIONS + ["faults are injected by the scripted socket (EOF, read error, write error, at the k-th call or on release) and by cancelling the connect context; coinciding endings are released from a barrier or staggered by drawn yields",
                                                   "quiescence = no goroutine with a frame in a *Conn method"],
         "legs": [
-            {"test": "TestC06", "quick": {"checks": 600, "timeout": "20m"},
+            {"test": "TestC06", "quick": {"checks": 2000, "timeout": "20m"},
              "thorough": {"checks": 6000, "shards": 4, "timeout": "90m"}},
         ],
     },
@@ -148,9 +148,9 @@ CHECKS = {
         "assumptions": EXPLORATION_ASSUMPTIONS + ["the model IRC network (harness/model/ircnet.go) defines 'conformant': it emits only what a server sends to this client, answers the client's MODE/WHO requests in lock-step, and keeps a separate record of what the protocol has revealed",
                                                   "not compared: user modes of any nick (WHO flags are outside the claim)"],
         "legs": [
-            {"test": "TestC13", "quick": {"checks": 400, "timeout": "15m"},
+            {"test": "TestC13", "quick": {"checks": 1500, "timeout": "15m"},
              "thorough": {"checks": 4000, "shards": 4, "timeout": "60m"}},
-            {"test": "TestC13_Arbitrary", "quick": {"checks": 400, "timeout": "15m"},
+            {"test": "TestC13_Arbitrary", "quick": {"checks": 1500, "timeout": "15m"},
              "thorough": {"checks": 4000, "shards": 4, "timeout": "60m"}},
         ],
     },
@@ -168,7 +168,7 @@ CHECKS = {
         "assumptions": EXPLORATION_ASSUMPTIONS + ["the scripted server model decides which nick the server currently uses for the client; Config().Me is read before Me() because Me() repairs it from the tracker"],
         "legs": [
             {"test": "TestC17_DefaultNewNick", "quick": {"checks": 100000, "timeout": "10m"}, "thorough": {"checks": 1000000, "shards": 2, "timeout": "30m"}},
-            {"test": "TestC17", "quick": {"checks": 1000, "timeout": "15m"},
+            {"test": "TestC17", "quick": {"checks": 4000, "timeout": "15m"},
              "thorough": {"checks": 15000, "shards": 4, "timeout": "60m"}},
         ],
     },
@@ -178,7 +178,7 @@ CHECKS = {
                                                   "the enumerated part is exhaustive over the stated small universe (evidence: exhaustive_enum, enum_sessions)"],
         "legs": [
             {"test": "TestC19_Enum", "quick": {"shards": 4, "timeout": "15m"}, "thorough": {"shards": 4, "timeout": "15m"}},
-            {"test": "TestC19", "quick": {"checks": 300, "timeout": "15m"},
+            {"test": "TestC19", "quick": {"checks": 1000, "timeout": "15m"},
              "thorough": {"checks": 5000, "shards": 4, "timeout": "60m"}},
         ],
     },
